@@ -272,7 +272,9 @@ fn run_op(t: usize, op: &TOp, foreign: &std::sync::Mutex<Vec<String>>) -> Result
                 if HOLDERS.load(SeqCst) > 0 {
                     CONTENDED.fetch_add(1, SeqCst);
                 }
-                let mut inj = ip::sut(InjectorPP::new);
+                // (every public way of making an injector is a way of taking the guard: scripts
+                // with three calls build theirs through the `Default` implementation)
+                let mut inj: InjectorPP = if *calls == 3 { ip::sut(<InjectorPP as Default>::default) } else { ip::sut(InjectorPP::new) };
                 // declared after `inj`: dropped first, also when unwinding, so the measured
                 // holding period is a subset of the true one
                 let _h = Holding::enter();
@@ -407,6 +409,7 @@ pub fn execute(c: &ThreadCase) -> ThreadObs {
     for s in &c.scripts {
         for op in s {
             kinds.insert(match op {
+                TOp::Injector { exit_panic: false, calls: 3 } => "injector/built-by-Default/drop",
                 TOp::Injector { exit_panic: false, .. } => "injector/drop",
                 TOp::Injector { exit_panic: true, .. } => "injector/panic",
                 TOp::InjectorUnmet { .. } => "injector/verification-panic",
